@@ -828,7 +828,7 @@ func (e *evalEnv) evalCall(n *ast.CallExpr) Value {
 				if e.old == nil {
 					e.fail(n, "fresh() has no pre-state here")
 				}
-				return boolV(c.IntCmp(">", v.L[0], e.old.Alloc))
+				return boolV(c.IntCmp(">", x.objRef(v), e.old.Alloc))
 			case "base":
 				v := e.eval(n.Args[0])
 				return Value{T: types.Typ[types.UnsafePointer], L: []*Term{v.L[0]}}
